@@ -36,9 +36,10 @@ Record variant := mkVariant {
   v_bind : bool;    (* validator: header.Hash() of the header obtained from the source == key[1:]   (finding i)  *)
   v_wd : bool;      (* validateBlockBody: withdrawals present exactly when the header has a root     (findings ii, iii) *)
   v_key : bool;     (* ValidateContent: len(contentKey) == 0 is an error instead of contentKey[0]    *)
-  v_obind : bool }. (* ValidationOracle.GetBlockHeaderByHash: returned header hashes to the request  (finding i, oracle side) *)
-Definition repaired : variant := mkVariant true true true true.
-Definition as_found : variant := mkVariant false false false false.
+  v_obind : bool;   (* ValidationOracle.GetBlockHeaderByHash: returned header hashes to the request  (finding i, oracle side) *)
+  v_numlen : bool }. (* ValidateContent, by-number key: len(contentKey) == 9 (as found: bytes after the 8-byte number were ignored) *)
+Definition repaired : variant := mkVariant true true true true true.
+Definition as_found : variant := mkVariant false false false false false.
 
 Definition two64 : N := 18446744073709551616.
 
@@ -132,6 +133,7 @@ Section History.
           end
       end
     else if Byte.eqb s x03 then
+      if v_numlen v && negb (Nat.eqb (length kh) 8) then Err E_KEY else
       match dec_header_with_proof content with
       | None => Err E_DECODE
       | Some (h, proof) =>
